@@ -10,7 +10,7 @@ class Hist:
     """parsed history. events: list of dicts {i, t (logical thread), os (os thread no), kind, f
     (fields)}; scenario info in .sc"""
 
-    def __init__(self, lines, scen_text):
+    def __init__(self, lines, scen_text, model_lines=None):
         self.ev = []
         for ln in lines:
             if not ln.startswith("L "):
@@ -38,6 +38,17 @@ class Hist:
                 parked[w[1]] = w[2]
             elif len(w) >= 3 and w[0] == "P" and w[2] == "arrived":
                 self.probe_arrivals.append((int(w[1]), parked.get(w[1], "client.op")))
+        if model_lines is not None and self.probe_arrivals:
+            # a probe that arrives says something about the property only when the run had
+            # followed the model's schedule up to that probe: after an earlier difference the
+            # model's idea of who must wait is no longer about this execution
+            core_h = [ln for ln in lines if ln[:2] in ("S ", "F ", "P ")]
+            core_m = [ln for ln in model_lines if ln[:2] in ("S ", "F ", "P ")]
+            first = next((i for i, (a, b) in enumerate(zip(core_m, core_h)) if a != b), None)
+            if first is None or not (core_h[first].startswith("P ") and " arrived" in core_h[first]):
+                self.probe_arrivals = []
+            else:
+                self.probe_arrivals = self.probe_arrivals[:1]
 
     def kinds(self, *ks):
         return [e for e in self.ev if e["kind"] in ks]
@@ -395,6 +406,18 @@ def mon_c09(h):
     for s, n in counts.items():
         if n > 1:
             bad.append(("released-once", "subscriber %d got on_unsubscribe %d times" % (s, n)))
+    # a release needs a reason: an unsubscribe() of that subscriber, or a shutdown, invoked before
+    shutdown_inv = next((e["i"] for e in h.ev if (e["kind"] == "INV" and e["f"][0] in ("stop", "drop", "close"))
+                         or e["kind"] == "HARNESS-CLEANUP"), None)
+    inv_un = {}
+    for e in h.ev:
+        if e["kind"] == "INV" and e["f"][0].startswith("un:"):
+            inv_un.setdefault(int(e["f"][0].split(":")[1]), e["i"])
+    for e in h.kinds("UNSUB"):
+        s = int(e["f"][0])
+        if not (s in inv_un and inv_un[s] < e["i"]) and not (shutdown_inv is not None and shutdown_inv < e["i"]):
+            bad.append(("released-without-cause", "subscriber %d got on_unsubscribe although neither its "
+                                                  "unsubscribe() nor a shutdown had been invoked" % s))
     if sr is not None:
         for s, k, _ in h.sc["subs"]:
             if k in ("direct", "chan") and counts.get(s, 0) != 1:
